@@ -1,6 +1,7 @@
 CONSTANTS
   Ext <- NoExtensions
   Conv = "empty"
+  Variants = FALSE
   Syntax <- SyntaxAsExt
   Defects = TRUE
   Mode = "bfs"
